@@ -1080,3 +1080,164 @@ Lemma add_diag_entry (K : rmat) (s : R) i j :
   (i < length K)%nat -> (i < length (nth i K []))%nat ->
   entry (add_diag NumR K s) i j = if Nat.eqb j i then entry K i j + s else entry K i j.
 Proof. intros Hi Hr. unfold add_diag. apply (add_diag_from_entry K s 0 i j Hi). exact Hr. Qed.
+
+(* ---- sample_and_cholesky_update: the fantasised target and the updated state ------ *)
+Lemma sample_update_state (L A : rmat) (Pcols Rcols : list rvec) (kvec z : rvec)
+      (kscal noise mscal floor clamp2 : R) :
+  StateOK L A Pcols Rcols -> length kvec = length L -> length z = length Pcols -> 0 < clamp2 ->
+  let lvec := fsubstR L kvec in
+  let raw := kscal + noise - dotR lvec lvec in
+  let res := sample_and_cholesky_update NumR L Pcols kvec kscal noise mscal z floor clamp2 in
+  (* the drawn target: posterior mean at the new input plus z times the posterior standard deviation *)
+  (forall j, (j < length Pcols)%nat ->
+     nth j (snd res) 0 =
+     mean_entry (predict_means NumR L Pcols [kvec] [mscal]) 0 j
+     + nth j z 0 * sqrt (nth 0 (predict_vars NumR L [kvec] [kscal] floor) 0)) /\
+  (* the returned state is the posterior state of the data extended by (x_new, target) *)
+  StateOK (fst (fst res)) (sym_extend A kvec (dotR lvec lvec + Rmax raw clamp2)) (snd (fst res))
+          (map2 (fun r tj => r ++ [tj - mscal]) Rcols (snd res)) /\
+  fst res = cholesky_update NumR L Pcols kvec kscal noise mscal (snd res) clamp2.
+Proof.
+  intros HS Hk Hz Hc lvec raw res.
+  set (pred_std := sqrt (Rmax (kscal - dotR lvec lvec) floor)).
+  set (target := map2 (fun (pj : rvec) zj => (dotR lvec pj + mscal) + zj * pred_std) Pcols z).
+  assert (Hres : res = (cholesky_update NumR L Pcols kvec kscal noise mscal target clamp2, target)) by reflexivity.
+  rewrite Hres. cbn [fst snd].
+  assert (Ht : length target = length Pcols).
+  { unfold target. rewrite map2_length. tR. rewrite Hz. apply Nat.min_id. }
+  split; [|split; [|reflexivity]].
+  - intros j Hj. unfold target. rewrite (map2_nth _ Pcols z j [] 0 0) by (tR; lia).
+    rewrite predict_means_entry by (simpl; lia).
+    rewrite predict_vars_entry, raw_variances_entry by (simpl; lia).
+    reflexivity.
+  - destruct (cholesky_update_state L A Pcols Rcols kvec target kscal noise mscal clamp2 HS Hk Ht Hc) as [H _].
+    exact H.
+Qed.
+
+(* ---- warping: structure lemmas hold at EVERY carrier ---------------------------------- *)
+Section WarpGeneric.
+Variable N : Num.
+Variable jit : T N.
+
+Definition disjoint (b1 b2 : wblock N) : Prop := forall k, andb (in_block N b1 k) (in_block N b2 k) = false.
+Fixpoint pairwise_disjoint (bs : list (wblock N)) : Prop :=
+  match bs with [] => True | b :: r => Forall (disjoint b) r /\ pairwise_disjoint r end.
+
+Lemma warp_from_length blk : forall (x : vec N) k, length (warp_from N jit blk k x) = length x.
+Proof. induction x as [|xi x IH]; intros k; simpl; [reflexivity|]. rewrite IH. reflexivity. Qed.
+
+Lemma warp_from_nth blk : forall (x : vec N) k i d, (i < length x)%nat ->
+  nth i (warp_from N jit blk k x) d = warp_coord N jit blk (k + i) (nth i x d).
+Proof.
+  induction x as [|xi x IH]; intros k i d Hi; simpl in Hi; [lia|].
+  destruct i as [|i]; simpl.
+  - rewrite Nat.add_0_r. reflexivity.
+  - rewrite IH by lia. f_equal. lia.
+Qed.
+
+Lemma warp_block_length blk (x : vec N) : length (warp_block N jit blk x) = length x.
+Proof. apply warp_from_length. Qed.
+
+(* a block acts coordinate-wise, and only on its own range *)
+Lemma warp_block_nth blk (x : vec N) i d : (i < length x)%nat ->
+  nth i (warp_block N jit blk x) d = warp_coord N jit blk i (nth i x d).
+Proof. intros Hi. unfold warp_block. rewrite warp_from_nth by exact Hi. reflexivity. Qed.
+
+Lemma warp_coord_outside blk i xi : in_block N blk i = false -> warp_coord N jit blk i xi = xi.
+Proof. intros H. unfold warp_coord. rewrite H. reflexivity. Qed.
+
+Lemma warp_coord_inside blk i xi : in_block N blk i = true ->
+  warp_coord N jit blk i xi =
+  kuma N jit (nth (i - w_lo N blk) (w_a N blk) (one N)) (nth (i - w_lo N blk) (w_b N blk) (one N)) xi.
+Proof. intros H. unfold warp_coord. rewrite H. reflexivity. Qed.
+
+(* blocks on disjoint ranges commute *)
+Lemma warp_block_comm b1 b2 (x : vec N) : disjoint b1 b2 ->
+  warp_block N jit b1 (warp_block N jit b2 x) = warp_block N jit b2 (warp_block N jit b1 x).
+Proof.
+  intros Hd. apply (nth_ext _ _ (zero N) (zero N)).
+  - rewrite !warp_block_length. reflexivity.
+  - intros i Hi. rewrite !warp_block_length in Hi.
+    rewrite !warp_block_nth by (rewrite ?warp_block_length; exact Hi).
+    specialize (Hd i). unfold warp_coord.
+    destruct (in_block N b1 i), (in_block N b2 i); simpl in Hd; try discriminate; reflexivity.
+Qed.
+
+Lemma apply_warpings_cons b bs (x : vec N) :
+  apply_warpings N jit (b :: bs) x = apply_warpings N jit bs (warp_block N jit b x).
+Proof. reflexivity. Qed.
+
+Lemma apply_warpings_length bs : forall x : vec N, length (apply_warpings N jit bs x) = length x.
+Proof.
+  induction bs as [|b bs IH]; intros x; [reflexivity|].
+  rewrite apply_warpings_cons, IH. apply warp_block_length.
+Qed.
+
+Lemma find_disjoint_none b bs i : in_block N b i = true -> Forall (disjoint b) bs ->
+  find (fun b' => in_block N b' i) bs = None.
+Proof.
+  intros Hb. induction 1 as [|b' bs Hd _ IH]; [reflexivity|]. simpl.
+  specialize (Hd i). rewrite Hb in Hd. simpl in Hd. rewrite Hd. exact IH.
+Qed.
+
+(* blocks on pairwise disjoint ranges compose: coordinate i is transformed by the one block that
+   contains it (its Kumaraswamy parameters), every other coordinate is untouched *)
+Lemma apply_warpings_nth bs : forall (x : vec N) i d, pairwise_disjoint bs -> (i < length x)%nat ->
+  nth i (apply_warpings N jit bs x) d =
+  match find (fun b => in_block N b i) bs with
+  | Some b => warp_coord N jit b i (nth i x d)
+  | None => nth i x d
+  end.
+Proof.
+  induction bs as [|b bs IH]; intros x i d Hp Hi; [reflexivity|].
+  destruct Hp as [Hd Hp]. rewrite apply_warpings_cons.
+  rewrite IH by (try assumption; rewrite warp_block_length; exact Hi).
+  rewrite warp_block_nth by exact Hi. cbn [find].
+  destruct (in_block N b i) eqn:Eb.
+  - rewrite (find_disjoint_none b bs i Eb Hd). reflexivity.
+  - rewrite (warp_coord_outside b i _ Eb). reflexivity.
+Qed.
+
+(* composition of kernels: symmetry is inherited *)
+Lemma warped_kernel_sym (k : vec N -> vec N -> T N) bs x y :
+  (forall u v, k u v = k v u) ->
+  warped_kernel N k jit bs x y = warped_kernel N k jit bs y x.
+Proof. intros H. unfold warped_kernel. apply H. Qed.
+
+Lemma range_kernel_sym (k : vec N -> vec N -> T N) s l x y :
+  (forall u v, k u v = k v u) -> range_kernel N k s l x y = range_kernel N k s l y x.
+Proof. intros H. unfold range_kernel. apply H. Qed.
+End WarpGeneric.
+
+Lemma product_kernel_sym (k1 k2 : rvec -> rvec -> R) d1 (x y : rvec) :
+  (forall u v, k1 u v = k1 v u) -> (forall u v, k2 u v = k2 v u) ->
+  product_kernel NumR k1 d1 k2 x y = product_kernel NumR k1 d1 k2 y x.
+Proof. intros H1 H2. unfold product_kernel. rewrite (H1 (firstn d1 x)), (H2 (skipn d1 x)). reflexivity. Qed.
+
+(* Kumaraswamy warping with a = b = 1 is the rescaling [0,1] -> [jit, 1 - jit]: the identity up to jit *)
+Lemma npow_one (x : R) : 0 < x -> npow NumR x 1 = x.
+Proof. intros Hx. unfold npow. cbn [nexp nlog mul NumR]. rewrite Rmult_1_l. apply exp_ln. exact Hx. Qed.
+
+Lemma kuma_identity (jit x : R) : 0 < jit -> jit < / 2 -> 0 <= x <= 1 ->
+  kuma NumR jit 1 1 x = (1 - 2 * jit) * x + jit /\ Rabs (kuma NumR jit 1 1 x - x) <= jit.
+Proof.
+  intros Hj Hj2 [Hx0 Hx1].
+  assert (Hr : rescale NumR jit x = (1 - 2 * jit) * x + jit).
+  { unfold rescale, two. cbn [add sub mul one NumR]. tR. ring. }
+  assert (Hr0 : 0 < (1 - 2 * jit) * x + jit) by nra.
+  assert (Hr1 : (1 - 2 * jit) * x + jit < 1) by nra.
+  assert (E : kuma NumR jit 1 1 x = (1 - 2 * jit) * x + jit).
+  { unfold kuma. rewrite Hr. cbn [sub one NumR]. rewrite (npow_one _ Hr0).
+    rewrite npow_one by lra. tR. lra. }
+  split; [exact E|]. rewrite E. apply Rabs_le. split; nra.
+Qed.
+
+(* warped / product / range Matern kernels on the diagonal *)
+Lemma warped_matern_self (ib : rvec) (cs mj wj : R) (bs : list (wblock NumR)) (x : rvec) :
+  warped_kernel NumR (matern52 NumR ib cs mj) wj bs x x = (1 + sqrt mj) * exp (- sqrt mj) * cs.
+Proof. unfold warped_kernel. apply matern52_self. Qed.
+
+Lemma product_matern_self (ib1 ib2 : rvec) (cs1 cs2 mj : R) d1 (x : rvec) :
+  product_kernel NumR (matern52 NumR ib1 cs1 mj) d1 (matern52 NumR ib2 cs2 mj) x x =
+  ((1 + sqrt mj) * exp (- sqrt mj) * cs1) * ((1 + sqrt mj) * exp (- sqrt mj) * cs2).
+Proof. unfold product_kernel. rewrite !matern52_self. reflexivity. Qed.
